@@ -157,6 +157,8 @@ def run(prog, report, tier):
     report.floor('E1-returned', 95)
     report.floor('E1-exported-key', 60)
     _constructors(prog, report, ext, verified)
+    from ..quadalg import check_scheme_ctor
+    check_scheme_ctor(prog, report)
     _must_return(prog, report)
     _literal_requests(prog, report, verified)
     if tier == 'thorough':
